@@ -258,6 +258,10 @@ def check(prop, tier, nworkers, keep, deadline):
         worker, info = prepare(scratch, sync=spec_.get("sync", False))
         results, crashed, fatals, incomplete = run_workers(worker, prop, tier, nworkers, scratch, seed, deadline)
         m = merge(results)
+        if info.get("uncontrolled"):
+            # nondeterminism the rewriter could not put under the explorer's control: the run is not called exhaustive
+            m["exhaustive"] = False
+            m["caps"].append("constructs not under the explorer's control (order / scheduling not enumerated there): " + "; ".join(info["uncontrolled"][:6]))
         if incomplete:
             m["exhaustive"] = False
             m["caps"].append("shards %s not completed: their worker process died on %d different executions (each reported)" % (incomplete, len(fatals)))
